@@ -214,7 +214,7 @@ func c07Gen(r *Rand, tier string, emit func(op any)) {
 		}
 	}
 	// 2. random derivation programs
-	n, maxNodes := 450, 40
+	n, maxNodes := 1200, 40
 	if thorough {
 		n, maxNodes = 30000, 400
 	}
